@@ -478,7 +478,7 @@ def result_lattice(ctx):
     # recorded indices, `dirs[:] = [.. if i not in recorded]`, or
     # dirs.remove()/pop() -- the recorded set (or the direct mutation) must
     # depend on `match == exclude_recursive` and on nothing else
-    dels, recorded, direct_mut = [], set(), []
+    dels, recorded, direct_mut, kept = [], set(), [], set()
     for g in F.reach(ff, 2):
         if not g.module.name.endswith('builtins.find'):
             continue
@@ -491,10 +491,16 @@ def result_lattice(ctx):
             elif isinstance(n, ast.Assign) and any(
                     isinstance(t, ast.Subscript) and isinstance(
                         t.slice, ast.Slice) for t in n.targets):
+                comp = False
                 for c in ast.walk(n.value):
                     if isinstance(c, ast.comprehension):
+                        comp = True
                         for t in c.ifs:
                             recorded |= _allocs(F.atoms(t, g))
+                if not comp:
+                    # dirs[:] = <list of the entries to keep>
+                    kept |= {a for a in _allocs(F.atoms(n.value, g))
+                             if a.startswith('alloc:' + g.node.name + '#')}
     for e in F.effects(ff, lambda e: e.name in ('remove', 'pop'), depth=2):
         if e.fn.module.name.endswith('builtins.find'):
             direct_mut.append(e)
@@ -509,6 +515,22 @@ def result_lattice(ctx):
                 r_, 'match') or has(r_, 'FindResult', 'exclude_recursive')
             and has_call(l, 'match')) for op, l, r_ in cmp_) and \
             len(F.guards(e.call, e.fn)) == 1
+    # the complementary spelling: entries to *keep* are collected and
+    # assigned back; an entry is kept exactly when its result is not
+    # exclude_recursive
+    keeps = [e for e in F.effects(ff, lambda e: e.name in ('append', 'add'),
+                                  depth=2)
+             if _allocs(e.recv()) & kept]
+    if keeps and not aps:
+        ok = True
+        for e in keeps:
+            cmp_ = F.guard_compares(e.call, e.fn)
+            ok = ok and any(op == 'NotEq' and (
+                has(l, 'FindResult', 'exclude_recursive') and has_call(
+                    r_, 'match') or has(r_, 'FindResult',
+                                        'exclude_recursive')
+                and has_call(l, 'match')) for op, l, r_ in cmp_) and \
+                len(F.guards(e.call, e.fn)) == 1
     ctx.ob(R, '_find_files|prune-only-exclude_recursive', ok, ff.node,
            'directories are pruned on a weaker result than '
            'exclude_recursive (or not at all)')
